@@ -125,6 +125,233 @@ def gate_key(gate):
 
 
 # ------------------------------------------------------------ generation
+
+# ---------------------------------------------- structured circuit families
+# (strengthening round, design_notes/C08.md): uniformly random gate placement
+# almost never keeps three or more bins/regions open that are chained through
+# shared qudits, which is where the dependency logic of the partitioners
+# decides.  These families do: every gate after the first layer joins two
+# blocks that are still open.
+FAMILIES = ('layered', 'ring', 'triples', 'cross', 'runs')
+_ONE = {2: ['h', 'x', 'rz', 'u3'], 3: ['sh3']}
+
+
+def pick_gate(rng, loc, radixes):
+    """(gate name, location) for a gate on the qudits `loc` whose radixes fit
+    (the location may be reordered for the mixed-radix gate); None if the
+    alphabet has no such gate"""
+    rs = [radixes[q] for q in loc]
+    if len(loc) == 1:
+        return rng.choice(_ONE[rs[0]]), list(loc)
+    if len(loc) == 2:
+        if rs == [2, 2]:
+            return rng.choice(['cx', 'cp', 'rzz', 'swap']), list(loc)
+        if rs == [3, 3]:
+            return 'csum3', list(loc)
+        return 'mix23', sorted(loc, key=lambda q: radixes[q])
+    if len(loc) == 3 and rs == [2, 2, 2]:
+        return rng.choice(['ccx', 'ccp']), list(loc)
+    if len(loc) == 4 and rs == [2, 2, 2, 2]:
+        return 'c3x', list(loc)
+    return None
+
+
+def family_locations(rng, fam, n, k, nlayers, p3):
+    """the sequence of gate locations (tuples of distinct qudits) of a family"""
+    perm = list(range(n))
+    rng.shuffle(perm)
+    out = []
+    if fam == 'layered':
+        # every layer is a random matching (some triples / single qudits): after
+        # the first layer ~n/2 groups are open and every further gate joins two
+        keep = rng.choice([0.6, 0.85, 1.0])
+        for _ in range(nlayers):
+            qs = list(range(n))
+            rng.shuffle(qs)
+            while len(qs) >= 2:
+                w = 3 if len(qs) >= 3 and rng.random() < p3 else 2
+                loc = [qs.pop() for _ in range(w)]
+                r = rng.random()
+                if r < keep:
+                    out.append(tuple(loc))
+                elif r < keep + 0.1:
+                    out.append((loc[0],))
+    elif fam == 'ring':
+        # brick-work on a ring / line under a random relabelling; the bonds of a
+        # layer come in arbitrary order, some are dropped or doubled
+        closed = rng.random() < 0.7
+        keep = rng.choice([0.8, 0.9, 1.0])
+        for l in range(nlayers):
+            lay = []
+            for i in range(l % 2, n, 2):
+                j = i + 1
+                if j >= n:
+                    if not closed or n % 2 == 1 and l % 2 == 0:
+                        continue
+                    j = 0
+                if rng.random() < keep:
+                    lay.append((perm[i], perm[j]))
+                    if rng.random() < 0.1:
+                        lay.append((perm[j], perm[i]))
+            rng.shuffle(lay)
+            out += lay
+            if rng.random() < 0.2:
+                out.append((rng.randrange(n),))
+    elif fam == 'triples':
+        # ladder over overlapping triples (stride 1 or 2), up and down
+        stride = rng.choice([1, 2])
+        starts = list(range(0, max(1, n - 2), stride))
+        for l in range(nlayers):
+            seq = starts if l % 2 == 0 else starts[::-1]
+            for i in seq:
+                tri = [perm[(i + d) % n] for d in range(min(3, n))]
+                for _ in range(rng.choice([1, 1, 2, 3])):
+                    r = rng.random()
+                    if r < p3 and len(tri) == 3:
+                        loc = list(tri)
+                        rng.shuffle(loc)
+                        out.append(tuple(loc))
+                    elif r < 0.9 or len(tri) < 2:
+                        out.append(tuple(rng.sample(tri, min(2, len(tri)))))
+                    else:
+                        out.append((rng.choice(tri),))
+    elif fam == 'runs':
+        # runs of single-qudit gates between entangling gates on a few of the
+        # qudits: long sparse circuits, many cycles hold one operation only
+        act = rng.sample(range(n), min(n, rng.choice([2, 2, 3, 4])))
+        for _ in range(nlayers * 3):
+            q = rng.choice(act)
+            for _ in range(rng.choice([1, 2, 2, 3, 4])):
+                out.append((q,))
+            if rng.random() < 0.8:
+                w = 3 if len(act) >= 3 and rng.random() < p3 else 2
+                out.append(tuple(rng.sample(act, w)))
+    else:
+        # 'cross': disjoint seed groups, then long-range gates between two (or
+        # three) different groups, a few gates inside a group in between
+        qs = list(perm)
+        groups = []
+        while len(qs) >= 2:
+            w = min(len(qs), rng.choice([2, 2, 2, 3] if k >= 3 else [2]))
+            if len(qs) - w == 1:
+                w = len(qs) if len(qs) <= 3 else 2
+            groups.append([qs.pop() for _ in range(w)])
+        if qs:
+            groups.append([qs.pop()])
+        for g in groups:
+            if len(g) == 3 and rng.random() < 0.5:
+                out.append(tuple(g))
+            elif len(g) >= 2:
+                for a, b in zip(g, g[1:]):
+                    out.append((a, b))
+        for _ in range(nlayers * max(1, n // 2)):
+            r = rng.random()
+            if r < 0.15:
+                g = rng.choice(groups)
+                out.append(tuple(rng.sample(g, min(len(g), rng.choice([1, 2])))))
+            elif r < 0.15 + p3 and len(groups) >= 3:
+                gs = rng.sample(groups, rng.choice([2, 3]))
+                loc = [rng.choice(g) for g in gs]
+                if len(loc) == 2:
+                    rest = [q for q in gs[0] if q != loc[0]]
+                    if rest:
+                        loc.append(rng.choice(rest))
+                out.append(tuple(loc))
+            elif len(groups) >= 2:
+                g, h = rng.sample(groups, 2)
+                out.append((rng.choice(g), rng.choice(h)))
+    return out
+
+
+def family_steps(rng, fam, radixes, k, nlayers, p3, pbar, maxsteps,
+                 allow_wide):
+    n = len(radixes)
+    steps = []
+    pc = 0
+    for loc in family_locations(rng, fam, n, k, nlayers, p3):
+        if len(steps) >= maxsteps:
+            break
+        if len(loc) > k and not allow_wide:
+            loc = loc[:k]
+        if rng.random() < pbar:
+            kind = rng.choice(['bar', 'bar', 'meas', 'reset'])
+            if kind == 'bar':
+                steps.append(['a', 0, 'bar', list(loc), []])
+            elif kind == 'meas' and all(radixes[q] == 2 for q in loc[:2]):
+                steps.append(['a', 0, 'meas', sorted(loc[:2]), []])
+            else:
+                steps.append(['a', 0, 'reset', [loc[0]], []])
+            continue
+        g = pick_gate(rng, list(loc), radixes) or \
+            pick_gate(rng, list(loc[:2]), radixes)
+        if g is None:
+            continue
+        name, gl = g
+        params = []
+        for _p in range(gates()[name].num_params):
+            pc += 1
+            params.append(pc)
+        steps.append(['a', 0, name, gl, params])
+    return steps
+
+
+def canonical_pairs(rng, nq, m):
+    """a uniformly chosen walk in the tree of sequences of m two-qudit gates on
+    at most nq qudits up to relabelling (qudits are numbered by first use)"""
+    out = []
+    used = 0
+    for _ in range(m):
+        ch = [(a, b) for a in range(used) for b in range(a + 1, used)]
+        if used < nq:
+            ch += [(a, used) for a in range(used)]
+        if used + 2 <= nq:
+            ch.append((used, used + 1))
+        a, b = rng.choice(ch)
+        used = max(used, a + 1, b + 1)
+        out.append((a, b))
+    return out
+
+
+def all_canonical_pairs(nq, m):
+    """every sequence of m two-qudit gates on at most nq qudits, up to
+    relabelling"""
+    def rec(prefix, used):
+        if len(prefix) == m:
+            yield list(prefix)
+            return
+        ch = [(a, b) for a in range(used) for b in range(a + 1, used)]
+        if used < nq:
+            ch += [(a, used) for a in range(used)]
+        if used + 2 <= nq:
+            ch.append((used, used + 1))
+        for a, b in ch:
+            prefix.append((a, b))
+            yield from rec(prefix, max(used, a + 1, b + 1))
+            prefix.pop()
+    yield from rec([], 0)
+
+
+def small_desc(rng, pairs, nq, k, pname='QuickPartitioner'):
+    """case for a sequence of two-qudit gates: random relabelling and
+    orientation, random first Bin id"""
+    perm = list(range(nq))
+    rng.shuffle(perm)
+    steps = []
+    pc = 0
+    for a, b in pairs:
+        loc = [perm[a], perm[b]]
+        if rng.random() < 0.5:
+            loc.reverse()
+        name = rng.choice(['cx', 'cp'])
+        params = []
+        if name == 'cp':
+            pc += 1
+            params = [pc]
+        steps.append(['a', 0, name, loc, params])
+    return {'radixes': [2] * nq, 'steps': steps, 'pre': [], 'pass': pname,
+            'k': k, 'arg2': 0, 'npseed': rng.getrandbits(31),
+            'bin_id0': rng.randrange(8), 'family': 'small'}
+
 def gen_desc(rng: random.Random, pname: str, thorough: bool) -> dict:
     """One seeded case: a JSON-able description of input circuit + pass."""
     big = thorough and rng.random() < 0.08
@@ -138,11 +365,18 @@ def gen_desc(rng: random.Random, pname: str, thorough: bool) -> dict:
     if dense:       # small circuits crowded with barrier-like operations
         n = rng.randint(3, 5)
         nsteps = rng.randint(4, 14)
-    qutrits = rng.random() < 0.2
+    fam = 'random'
+    if not big and not dense and rng.random() < 0.45:
+        fam = rng.choice(FAMILIES)
+        n = rng.choice([4, 5, 6, 6, 6, 7, 8, 8, 9, 10, 10, 12])
+        nsteps = 120
+    qutrits = rng.random() < (0.2 if fam == 'random' else 0.1)
     if qutrits and not big:
         n = min(n, 6)
     radixes = [3 if qutrits and rng.random() < 0.4 else 2 for _ in range(n)]
     k = rng.choice([2, 2, 3, 3, 3, 4, 4, 5, 6])
+    if fam != 'random':
+        k = rng.choice([2, 3, 3, 3, 4, 4, 5])
     if pname in ('GreedyPartitioner', 'ClusteringPartitioner'):
         # Circuit.surround is exponential in the block size
         k = min(k, 4)
@@ -164,6 +398,12 @@ def gen_desc(rng: random.Random, pname: str, thorough: bool) -> dict:
     steps = []
     pc = 0
     ncyc = 0
+    if fam != 'random':
+        steps = family_steps(
+            rng, fam, radixes, k, rng.choice([2, 3, 3, 4, 5, 8]),
+            rng.choice([0.0, 0.0, 0.15, 0.3]) if k >= 3 else 0.0,
+            rng.choice([0.0, 0.0, 0.0, 0.03, 0.08]), nsteps, allow_wide)
+        nsteps = 0
     for _ in range(nsteps):
         r = rng.random()
         name = None
@@ -230,7 +470,29 @@ def gen_desc(rng: random.Random, pname: str, thorough: bool) -> dict:
         k = rng.randint(2, min(4, n))
         arg2 = rng.choice([0, 1])        # coupling: all-to-all / line
     return {'radixes': radixes, 'steps': steps, 'pre': pre, 'pass': pname,
-            'k': k, 'arg2': arg2, 'npseed': rng.getrandbits(31)}
+            'k': k, 'arg2': arg2, 'npseed': rng.getrandbits(31),
+            'bin_id0': rng.randrange(8), 'family': fam}
+
+
+def gen_qdense(rng: random.Random) -> dict:
+    """QuickPartitioner stream `qdense`: many bins open at once and chained
+    through shared qudits (block sizes 3-5, 6-12 qudits, mostly an even number:
+    a perfect matching leaves no idle qudit to absorb a gate), few layers"""
+    n = rng.choice([6, 6, 6, 7, 8, 8, 8, 9, 10, 10, 12])
+    k = rng.choice([3, 3, 3, 4, 4, 5])
+    fam = rng.choice(['layered', 'layered', 'ring', 'ring', 'cross'])
+    radixes = [2] * n
+    steps = family_steps(
+        rng, fam, radixes, k, rng.choice([2, 2, 3, 3, 4, 5]),
+        rng.choice([0.0, 0.0, 0.15, 0.3]),
+        rng.choice([0.0, 0.0, 0.0, 0.0, 0.05]), 80, True)
+    return {'radixes': radixes, 'steps': steps, 'pre': [],
+            'pass': 'QuickPartitioner', 'k': k, 'arg2': 0,
+            'npseed': rng.getrandbits(31), 'bin_id0': rng.randrange(8),
+            'family': 'qdense-' + fam}
+
+
+SMALL_NQ, SMALL_M, SMALL_K = 6, 6, 3
 
 
 def make_pass(pname, k, arg2):
@@ -536,6 +798,7 @@ def expected_clause(v, strict, barriers_on):
 # Greedy/Clustering inputs small)
 PASS_CPU_BASE = 120.0
 PASS_CPU_PER_OP = 1.0
+READ_CPU_BASE = 60.0
 
 
 class CaseTimeout(BaseException):
@@ -552,11 +815,18 @@ def slug(msg: str) -> str:
     return msg[:48]
 
 
-def run_case(desc, want_lines=True, trace=False):
+def run_case(desc, want_lines=True, trace=False, cpu_budget=None):
     """Run one case on the real code.  Returns a JSON-able result dict."""
     from bqskit.ir.gates import CircuitGate
     pname, k, arg2 = desc['pass'], desc['k'], desc['arg2']
     res = {'pass': pname, 'k': k}
+    # QuickPartitioner picks among equally admissible bins in the iteration
+    # order of a set of Bins, i.e. by Bin.id modulo the table size; Bin.id is a
+    # process-wide counter (it depends on how many bins earlier runs made).
+    # Fixing the first id per case makes a case reproducible and lets the
+    # generator cover the different orders.
+    import bqskit.passes.partitioning.quick as _quick
+    _quick.Bin.id = int(desc.get('bin_id0', 0))
     try:
         c = build(desc)
     except PrePassError as e:
@@ -598,7 +868,7 @@ def run_case(desc, want_lines=True, trace=False):
     events = None
     # CPU-time budget of the pass (user time of this process: independent of
     # the load of the machine); typical runs need well under a second
-    budget = PASS_CPU_BASE + PASS_CPU_PER_OP * nops
+    budget = cpu_budget or PASS_CPU_BASE + PASS_CPU_PER_OP * nops
     signal.signal(signal.SIGVTALRM, _on_alarm)
     signal.setitimer(signal.ITIMER_VIRTUAL, budget)
     cpu0 = time.process_time()
@@ -613,6 +883,7 @@ def run_case(desc, want_lines=True, trace=False):
         return res
     except Exception as e:
         signal.setitimer(signal.ITIMER_VIRTUAL, 0)
+        res['cpu'] = time.process_time() - cpu0
         ref = REFUSES_WIDE.get(pname)
         msg = str(e)
         if ref and isinstance(e, ref[0]) and ref[1] in msg and maxw_all > k:
@@ -630,45 +901,57 @@ def run_case(desc, want_lines=True, trace=False):
     finally:
         signal.setitimer(signal.ITIMER_VIRTUAL, 0)
     res['cpu'] = time.process_time() - cpu0
-    strict, aware = PASS_INFO[pname]
-    v = oracle(before_lv, before.radixes, list(before), c, k_eff)
-    if u_before is not None and 'radixes' not in v:
-        try:
-            u_after = c.get_unitary().numpy
-            d = float(np.abs(u_after - u_before).max())
-            res['unitary_checked'] = True
-            if d > 1e-8:
-                v['unitary-changed'] = f'max |U_out - U_in| = {d:.3g}'
-        except Exception as e:
-            v['unitary-changed'] = 'get_unitary of the output raised ' + \
-                repr(e)[:200]
-    res['verdicts'] = v
-    res['nblocks'] = sum(isinstance(o.gate, CircuitGate) for o in c)
-    if want_lines:
-        r = Render()
-        ct = r.circ_text(before)
-        pt = r.circ_text(c)
-        bg = ' '.join(map(str, sorted(r.barrier_gids)))
-        checks = [f'check {k_eff} {int(strict)} {bg} | {ct} | {pt}']
-        exp = [expected_clause(v, strict, True)]
-        if not aware and has_bar:
-            # second look with barriers treated as ordinary gates
-            checks.append(f'check {k_eff} {int(strict)} | {ct} | {pt}')
-            exp.append(expected_clause(v, strict, False))
-        if events is not None:
-            from harness import c08_quick
-            qmoves, bmoves = events
-            ql, qe = c08_quick.render_events(r, before, qmoves, k, c)
-            checks.append(ql)
-            exp.append(qe)
-            checks.append(c08_quick.render_bins(r, before, bmoves))
-            exp.append('ok')
-            res['quick_events'] = len(qmoves)
-            res['bin_events'] = len(bmoves)
-        lines = ['reset'] + r.defs + checks
-        res['lines'] = lines
-        res['nprefix'] = 1 + len(r.defs)
-        res['expected'] = exp
+    # reading the returned circuit is budgeted too: a defective pass can return
+    # a circuit whose iteration does not terminate
+    read_budget = cpu_budget or READ_CPU_BASE + 0.2 * nops
+    signal.setitimer(signal.ITIMER_VIRTUAL, read_budget)
+    try:
+        strict, aware = PASS_INFO[pname]
+        v = oracle(before_lv, before.radixes, list(before), c, k_eff)
+        if u_before is not None and 'radixes' not in v:
+            try:
+                u_after = c.get_unitary().numpy
+                d = float(np.abs(u_after - u_before).max())
+                res['unitary_checked'] = True
+                if d > 1e-8:
+                    v['unitary-changed'] = f'max |U_out - U_in| = {d:.3g}'
+            except Exception as e:
+                v['unitary-changed'] = 'get_unitary of the output raised ' + \
+                    repr(e)[:200]
+        res['verdicts'] = v
+        res['nblocks'] = sum(isinstance(o.gate, CircuitGate) for o in c)
+        if want_lines:
+            r = Render()
+            ct = r.circ_text(before)
+            pt = r.circ_text(c)
+            bg = ' '.join(map(str, sorted(r.barrier_gids)))
+            checks = [f'check {k_eff} {int(strict)} {bg} | {ct} | {pt}']
+            exp = [expected_clause(v, strict, True)]
+            if not aware and has_bar:
+                # second look with barriers treated as ordinary gates
+                checks.append(f'check {k_eff} {int(strict)} | {ct} | {pt}')
+                exp.append(expected_clause(v, strict, False))
+            if events is not None:
+                from harness import c08_quick
+                qmoves, bmoves = events
+                ql, qe = c08_quick.render_events(r, before, qmoves, k, c)
+                checks.append(ql)
+                exp.append(qe)
+                checks.append(c08_quick.render_bins(r, before, bmoves))
+                exp.append('ok')
+                res['quick_events'] = len(qmoves)
+                res['bin_events'] = len(bmoves)
+            lines = ['reset'] + r.defs + checks
+            res['lines'] = lines
+            res['nprefix'] = 1 + len(r.defs)
+            res['expected'] = exp
+    except CaseTimeout:
+        res['verdicts'] = {'broken-circuit': (
+            'reading the returned circuit (iteration, unfolding, unitary) did '
+            f'not terminate within {read_budget:.0f} s of CPU time')}
+        res.update(nblocks=0, lines=[], nprefix=0, expected=[])
+    finally:
+        signal.setitimer(signal.ITIMER_VIRTUAL, 0)
     return res
 
 
@@ -680,15 +963,33 @@ _EXHAUSTED: Counter = Counter()     # per worker process
 
 
 def worker(args):
-    base, idxs, thorough, names = args
+    base, idxs, thorough, names = args[:4]
+    stream = args[4] if len(args) > 4 else 'main'
     warnings.simplefilter('ignore')
     logging.disable(logging.WARNING)
     out = []
+    exhaustive = None
+    if stream == 'small-all':
+        import itertools
+        exhaustive = itertools.islice(
+            all_canonical_pairs(SMALL_NQ, SMALL_M), idxs[0], idxs[-1] + 1)
     for i in idxs:
-        rng = random.Random(seed_of(base, i))
-        pname = names[i % len(names)]
+        rng = random.Random(seed_of(base, i) if stream == 'main' else
+                            zlib.crc32(f'c08:{stream}:{base}:{i}'.encode()))
+        pname = names[i % len(names)] if stream == 'main' \
+            else 'QuickPartitioner'
         try:
-            desc = gen_desc(rng, pname, thorough)
+            if stream == 'main':
+                desc = gen_desc(rng, pname, thorough)
+            elif stream == 'qdense':
+                desc = gen_qdense(rng)
+            elif stream == 'small':
+                desc = small_desc(
+                    rng, canonical_pairs(rng, SMALL_NQ,
+                                         rng.randint(4, SMALL_M + 2)),
+                    SMALL_NQ, SMALL_K)
+            else:
+                desc = small_desc(rng, next(exhaustive), SMALL_NQ, SMALL_K)
             if _EXHAUSTED[pname] >= 2:
                 # this pass keeps burning its whole CPU budget (reported):
                 # do not spend the rest of the run waiting for it
@@ -703,22 +1004,33 @@ def worker(args):
             res = {'harness_error': repr(e) + traceback.format_exc()[-2000:],
                    'pass': pname}
         res['i'] = i
+        res['stream'] = stream
         out.append(res)
     return out
 
 
 # ------------------------------------------------------------- shrinking
-def shrink(desc, flag, budget=150):
-    """smallest step list on which the same verdict flag / exception recurs"""
+SHRINK_CPU_S = 60.0
+
+
+def shrink(desc, flag, budget=150, cpu=None):
+    """smallest step list on which the same verdict flag / exception recurs.
+    A candidate on which the pass needs much longer than on the failing case
+    (`cpu` seconds) is given up - a defective pass may loop on the reduced
+    circuits - and the whole search stops after SHRINK_CPU_S of CPU time."""
     count = [0]
+    per_run = max(5.0, 20.0 * (cpu or 0.0))
+    stop = time.process_time() + SHRINK_CPU_S
 
     def fails(steps):
         count[0] += 1
-        if count[0] > budget:
+        left = stop - time.process_time()
+        if count[0] > budget or left <= 0:
             return False
         d = dict(desc, steps=steps)
         try:
-            r = run_case(d, want_lines=False)
+            r = run_case(d, want_lines=False,
+                         cpu_budget=max(1.0, min(per_run, left)))
         except Exception:
             return False
         if flag.startswith('exception:'):
@@ -808,6 +1120,25 @@ def run(ck: Check):
         chunk = 40
         jobs = [(ck.seed, list(range(s, min(ncases, s + chunk))), thorough,
                  names) for s in range(0, ncases, chunk)]
+        if 'QuickPartitioner' in names:
+            # QuickPartitioner-only streams (cheap: a few ms per case)
+            nq = int(os.environ.get('C08_NQDENSE', 4000 if thorough else 480))
+            jobs += [(ck.seed, list(range(s, min(nq, s + 80))), thorough,
+                      names, 'qdense') for s in range(0, nq, 80)]
+            if thorough:
+                tot = sum(1 for _ in all_canonical_pairs(SMALL_NQ, SMALL_M))
+                tot = min(tot, int(os.environ.get('C08_NSMALL', tot)))
+                jobs += [(ck.seed, list(range(s, min(tot, s + 800))),
+                          thorough, names, 'small-all')
+                         for s in range(0, tot, 800)]
+                ck.coverage['small_exhaustive'] = (
+                    f'all {tot} sequences of {SMALL_M} two-qudit gates on '
+                    f'<= {SMALL_NQ} qudits up to relabelling, block size '
+                    f'{SMALL_K}, one random relabelling / first Bin id each')
+            else:
+                ns = int(os.environ.get('C08_NSMALL', 240))
+                jobs += [(ck.seed, list(range(s, min(ns, s + 80))), thorough,
+                          names, 'small') for s in range(0, ns, 80)]
         ctx = mp.get_context('fork')
         with ctx.Pool(NWORKERS) as pool:
             results += [r for part in pool.imap(worker, jobs) for r in part]
@@ -846,11 +1177,14 @@ def process(ck: Check, results):
         if r.get('skip'):
             ck.bump('skipped', r['skip'])
             continue
-        ck.count(('case', pname, r['i'], r.get('n'), r.get('nops')),
+        ck.count(('case', pname, r.get('stream'), r['i'], r.get('n'),
+                  r.get('nops')),
                  nontrivial=r.get('nops', 0) > 1)
         ck.bump('width', str(r['n']))
         ck.bump('ops', str(min(1000, 10 ** len(str(r['nops'])))))
         ck.bump('block_size', str(r['k']))
+        ck.bump('family', str(r.get('desc', {}).get('family', 'corpus')))
+        ck.bump('stream', r.get('stream', 'corpus'))
         if r.get('has_bar'):
             ck.bump('features', 'barrier-like')
         if r.get('blocked_in'):
@@ -880,7 +1214,8 @@ def process(ck: Check, results):
             sig = f'exception:{pname}:{r["excsig"]}'
             desc = r['desc']
             if not is_known(ck, sig):
-                desc = shrink(desc, f'exception:{r["excsig"]}')
+                desc = shrink(desc, f'exception:{r["excsig"]}',
+                              cpu=r.get('cpu'))
             ck.violation(
                 sig, f'{pname}(block_size={r["k"]}) raised {et}: {msg} on a '
                 'valid input instead of returning a circuit',
@@ -903,7 +1238,7 @@ def process(ck: Check, results):
                 sig += ':cyclic-blocks'
             desc = r['desc']
             if not is_known(ck, sig):
-                desc = shrink(desc, flag)
+                desc = shrink(desc, flag, cpu=r.get('cpu'))
             ck.violation(
                 sig, f'{pname}(block_size={r["k"]}): {WHAT[flag]} ({detail})',
                 {'desc': desc, 'python': describe(desc), 'detail': detail})
